@@ -75,7 +75,8 @@ EthCases(h, to) ==
            : ch \in {"low", "high", "other", "zero"} }
   \cup { Case(h, "wrap:Data:" \o v, "auth", SetWrap(b, "Data", v), b) : v \in {"value", "gas", "price", "data"} }
   \cup { Case(h, "wrap:Hash:flip", "auth", FlipWrap(b, "Hash", i), b) : i \in HashBits }
-  \cup { Case(h, "flipfield:" \o n, "auth", FlipWrap(b, n, i), b) : n \in {"Target", "Data"}, i \in FieldBits }
+  \cup { Case(h, "flipfield:" \o n, "auth", FlipWrap(b, n, i), b) :
+           n \in (IF to = "call" THEN {"Target", "Data"} ELSE {"Data"}), i \in FieldBits }
   \cup { Case(h, "flipfield:Source", "auth", FlipWrap(b, "Source", i), b) : i \in SourceBits }
   \cup { Case(h, "ed:" \o d, "auth", DamageEd(b, d, 0), b) : d \in {"upper", "garbage", "trunc", "trail"} }
   \cup { Case(h, "ed:flip", "auth", DamageEd(b, "flip", i), b) : i \in EdBits }
